@@ -9,6 +9,10 @@ Dropout sub-modules: mixed modes are legal starting states)
 
 answers, for every call of the walk, `<components changed, comma separated, or ->:<output class>`
 joined by single spaces.  Components: modes, theta, rng, state, attrs, spec, flags.  Output class:
+`stepcase <same fields> ops=[observer calls]` answers `live=<0|1> same=<eq|ne>`: after `forward; ops`, is the
+cost still a differentiable function of the architectural parameters, and does `forward; ops; step` reach
+the observable state of `forward; step`.
+
 `n<i>` / `s<i>` / `c<i>` = exported network / summary / cost value equal to the one first returned by
 call `i` of this walk, `e` = AssertionError, `-` = nothing compared. -/
 open PlinioVerif PlinioVerif.Proto PlinioVerif.Observers
@@ -22,6 +26,7 @@ def parseOp? (t : String) : Option Op :=
   else if t = "exportnobn" then some .exportNoBn else if t = "summary" then some .summary
   else if t = "cost" then some .cost else if t = "getcost" then some .getCost
   else if t = "getcostb" then some .getCostB
+  else if t = "step" then some .optStep
   else if t.startsWith "set:" then (parseSpec? (t.drop 4).toString).map .setSpec
   else none
 
@@ -48,7 +53,7 @@ def walk (stp : Cfg → State → Op → State × Out) (c : Cfg) : State → Lis
 def handle (line : String) : String :=
   let toks := tokens line
   let b := fun k => (field? toks k).bind parseBool?
-  match toks.head? with
+  match (if toks.head? = some "stepcase" then some "walk" else toks.head?) with
   | some "walk" =>
     match (field? toks "method").bind parseMethod?, b "gumbel", b "hard", b "disable", b "full", b "fixed",
           b "add", b "bn", b "drop", b "train", (field? toks "spec").bind parseSpec?,
@@ -56,7 +61,16 @@ def handle (line : String) : String :=
     | some m, some g, some h, some d, some f, some fx, some ad, some bn, some dr, some tr, some sp, some ops,
       some pinned, some bm, some dm =>
       let c : Cfg := ⟨m, g, h, d, f, fx, ad, bn, dr⟩
-      let s0 : State := ⟨tr, tr, bm, dm, ⟨false, none⟩, 0, 0, 0, false, sp, 0⟩
+      let s0 : State := ⟨tr, tr, bm, dm, ⟨false, none, false⟩, 0, 0, 0, false, sp, 0⟩
+      if toks.head? = some "stepcase" then
+        -- forward, observers, then loss/backward/step  vs  the twin without the observers
+        let stp := if pinned then stepPinned else step
+        let runWith := fun (l : List Op) => l.foldl (fun st op => (stp c st op).1) s0
+        let before := runWith (.forward :: ops)
+        let a := runWith (.forward :: ops ++ [.optStep])
+        let b := runWith [.forward, .optStep]
+        s!"live={showBool (costLive c before)} same={if obsState a == obsState b then "eq" else "ne"}"
+      else
       " ".intercalate (walk (if pinned then stepPinned else step) c s0 [] ops)
     | _, _, _, _, _, _, _, _, _, _, _, _, _, _, _ => "bad-request"
   | _ => "bad-request"
